@@ -4,6 +4,7 @@ import (
 	zz "github.com/krotik/ecal/zzverif"
 	"io"
 	"os"
+	"path/filepath"
 	"sort"
 	"strings"
 	"time"
@@ -80,7 +81,11 @@ func memMkdir(path string) {
 
 func memErr(op, path string, err error) error { return &os.PathError{Op: op, Path: path, Err: err} }
 
+// memKey: the file system resolves "." / ".." segments, repeated and trailing separators
+func memKey(p string) string { return filepath.Clean(p) }
+
 func memOpenFile(name string, flag int, perm os.FileMode) (*os.File, error) {
+	name = memKey(name)
 	f, ok := memFS[name]
 	switch {
 	case !ok && flag&os.O_CREATE == 0:
@@ -205,6 +210,7 @@ func memFStat(f *os.File) (os.FileInfo, error) {
 }
 
 func memStat(name string) (os.FileInfo, error) {
+	name = memKey(name)
 	f, ok := memFS[name]
 	if !ok {
 		return nil, memErr("stat", name, os.ErrNotExist)
@@ -215,6 +221,7 @@ func memStat(name string) (os.FileInfo, error) {
 func memReadlink(name string) (string, error) { return "", memErr("readlink", name, os.ErrInvalid) }
 
 func memChmod(name string, m os.FileMode) error {
+	name = memKey(name)
 	f, ok := memFS[name]
 	if !ok {
 		return memErr("chmod", name, os.ErrNotExist)
@@ -224,6 +231,7 @@ func memChmod(name string, m os.FileMode) error {
 }
 
 func memNames(dir string) ([]string, error) {
+	dir = memKey(dir)
 	d, ok := memFS[dir]
 	if !ok {
 		return nil, memErr("open", dir, os.ErrNotExist)
@@ -250,6 +258,7 @@ func memReaddirnames(f *os.File, n int) ([]string, error) {
 }
 
 func memReadDir(dir string) ([]os.FileInfo, error) {
+	dir = memKey(dir)
 	names, err := memNames(dir)
 	if err != nil {
 		return nil, err
@@ -317,8 +326,8 @@ func memReadFrom(f *os.File, r io.Reader) (int64, error) {
 }
 
 func memAbs(p string) (string, error)      { return p, nil }
-func memExists(p string) (bool, error)     { _, ok := memFS[p]; return ok, nil }
-func memIsDir(p string) (bool, error)      { f, ok := memFS[p]; return ok && f.dir, nil }
+func memExists(p string) (bool, error)     { _, ok := memFS[memKey(p)]; return ok, nil }
+func memIsDir(p string) (bool, error)      { f, ok := memFS[memKey(p)]; return ok && f.dir, nil }
 
 func memInstall() {
 	zz.Replace("os.OpenFile", memOpenFile)
